@@ -505,6 +505,18 @@ func allPathsHitCut(f *ssa.Function, from ssa.Instruction, hit func(ssa.Instruct
 	return !miss && any, nil
 }
 
+// C14-TOTAL: the cache operations never panic, for any capacity (0 included) and key sequence.
+func ruleC14Total(r *Run) {
+	w := r.W
+	var fns []*ssa.Function
+	for _, f := range w.Funcs {
+		if f.Parent() == nil && isCachedRoutesMethod(w, f) {
+			fns = append(fns, f)
+		}
+	}
+	runIdx(r, "C14-TOTAL", fns, 3)
+}
+
 func init() {
 	register(&property{
 		Meta: propertyMeta{
@@ -522,6 +534,6 @@ func init() {
 			NotDecided:  []string{"LRU conformance as a property of arbitrary operation histories (needs the run-time order); Len() values"},
 			Assumptions: []string{"container/list semantics"},
 		},
-		Rules: []ruleFn{{"C14-PAIR", ruleCacheStruct("C14")}, {"C14-KEY", ruleCacheKey("C14-KEY")}, {"C14-LOCK", ruleCacheLock("C14-LOCK")}, {"C01-TIERS", ruleC01Tiers}},
+		Rules: []ruleFn{{"C14-PAIR", ruleCacheStruct("C14")}, {"C14-KEY", ruleCacheKey("C14-KEY")}, {"C14-LOCK", ruleCacheLock("C14-LOCK")}, {"C14-TOTAL", ruleC14Total}, {"C01-TIERS", ruleC01Tiers}},
 	})
 }
